@@ -136,24 +136,13 @@ def successors(state, st, res):
         ok = res not in ("0",)
         if ok:
             return ok, _with_option(state, st[1], st[2], k == "opt")
-        # refused: nothing may change, except the documented allowance that a
-        # refused Proxy-* add on a request may leave the implicit Hop-Limit
-        cands = [state]
-        if is_request(state.code) and st[1] in (35, 39) and not state.has(16):
-            s = state.copy()
-            s.insert(*HOP)
-            cands.append(s)
-        return ok, cands
+        # refused: nothing may change (that includes the Hop-Limit the builder adds next to a
+        # Proxy-Uri/Proxy-Scheme: it goes when the option it was added for is refused)
+        return ok, [state]
     if k == "upd":
         ok = res not in ("0",)
         if not ok:
-            cands = [state]
-            if (not state.has(st[1]) and is_request(state.code) and st[1] in (35, 39)
-                    and not state.has(16)):
-                s = state.copy()
-                s.insert(*HOP)
-                cands.append(s)
-            return ok, cands
+            return ok, [state]
         if state.has(st[1]):
             s = state.copy()
             for i, (n, _) in enumerate(s.options):
@@ -195,15 +184,6 @@ def successors(state, st, res):
                     nxt.extend(_with_option(s0, num, val, False))
                 states = nxt[:8]
             cands.extend(states)
-        if not ok:
-            # the refused element itself may have left the implicit Hop-Limit
-            extra = []
-            for s0 in cands:
-                if is_request(s0.code) and not s0.has(16) and any(n in (35, 39) for n, _ in items):
-                    s = s0.copy()
-                    s.insert(*HOP)
-                    extra.append(s)
-            cands.extend(extra)
         return ok, cands
     if k == "dup":
         ok = res == "1"
